@@ -331,7 +331,15 @@ func (fc *funcContext) translateFunctionBody(typ *ast.FuncType, recv *ast.Ident,
 
 	if len(fc.Flattened) != 0 {
 		prefix = prefix + " s: while (true) { switch ($s) { case 0:"
-		suffix = " } return; }" + suffix
+		// The end of the switch is only reached when the function is resumed after
+		// its body has been abandoned ($s = -1), i.e. a deferred call blocked after
+		// a panic. Unnamed results are then the zero values, same as in the catch
+		// block above; named results are returned by the finally block.
+		end := " } return; }"
+		if fc.HasDefer && fc.resultNames == nil && fc.sig.HasResults() {
+			end = fmt.Sprintf(" } return%s; }", fc.translateResults(nil))
+		}
+		suffix = end + suffix
 	}
 
 	if fc.HasDefer {
